@@ -19,6 +19,7 @@ META = {
     "does_not_decide": "'iff' over all maps; label classification and integer range are C17/C15; duplicates are C12",
     "trusted_base": ["RFC 8152 section 7 / 7.1 as transcribed in spec/rfc8152.py", "std BTreeSet::insert / is_empty, Iterator::map/collect order"],
 }
+META["decides"] += " (As built: shares C08's frame rule - the decoded key is written only by the per-entry dispatch.)"
 
 DEC = "<key::CoseKey as common::AsCborValue>::from_cbor_value"
 RESULT = "key::CoseKey"
